@@ -11,11 +11,13 @@ import (
 	"encoding/json"
 	"fmt"
 	"io"
+	"math/rand"
 	"os"
 	"path/filepath"
 	"runtime"
 	"runtime/debug"
 	"sort"
+	"strconv"
 	"strings"
 	"time"
 
@@ -30,7 +32,17 @@ type c15Node struct {
 	data []byte
 }
 
-var c15Names = []string{"a", "b", "c", "d", "e", "f1", "file", "sub", "x.txt", "中文", "文件2", "ü", "naïve", "日本語のファイル", "ö-dir", "😀", "Ω", "with space", "UPPER", "z_9"}
+var c15Names = append([]string{"a", "b", "c", "d", "e", "f1", "file", "sub", "x.txt", "中文", "文件2", "ü", "naïve", "日本語のファイル", "ö-dir", "😀", "Ω", "with space", "UPPER", "z_9"}, c15OddNames...)
+
+// c15OddNames: valid single path elements whose code points LOOK like separators, dots or NUL
+// to code that inspects anything but the bytes of the UTF-8 encoding: low byte 0x2F ('/'),
+// 0x5C ('\\'), 0x2E ('.'), 0x00; the same values as the high byte of the UTF-16 unit; above
+// the BMP; and the ASCII characters that are special elsewhere but ordinary here
+var c15OddNames = []string{
+	"\u042f", "\u042f\u0431\u043b\u043e\u043a\u0438", "\u012fvair\u016bs", "\u542f\u52a8.log", "\u9999\u6e2f", "\u662f\u975e\u9898.txt",
+	"\u6280\u672f\u6587\u6863", "\u8f2f", "\u015c", "\u012e", "\u0100", "\u2f00", "\u5c00", "\u2e00", "\u2f2f\u5c5c",
+	"back\\slash", "...", ".hidden", "trail.", "a..b", "\U0001F42F", "\U0001002F", "\U0010FF2F", "\U0001005C\U0001002E",
+}
 
 // c15GenTree: random tree description (creation order: parents before children)
 func c15GenTree(c *ctx, maxDepth, maxFan int, sizes []int) []c15Node {
@@ -624,6 +636,12 @@ func genArchive(c *ctx) {
 				if rest := stream[len(c15Concat(seen)):]; len(rest) > 0 {
 					full = append(append([][]byte(nil), seen...), rest)
 				}
+				if refused := c15RefusedNames(nodes); refused != "" {
+					// the stream is fine: the writer refuses an entry because of its name
+					c15ViolateCapped(c, 3, "entry-name-refused:"+refused, "the archive writer refuses an entry whose name is a valid single path element",
+						fmt.Sprintf("%s tree=%s got=%s", key, c15DescNodes(nodes), res))
+					break
+				}
 				c.violate(c15TreeKey(tmp, &seq, rootSrc, full, "ok|"+want, mode), "the tree written from the archive stream differs from the source tree",
 					fmt.Sprintf("%s mode=%d table=%s segs=%s got=%s want=%s", key, mode, tbl, hxs(seen), res, want))
 			}
@@ -781,7 +799,11 @@ func genArchive(c *ctx) {
 				res := c15Write(tmp, &seq, rootSrc, gsegs, nil)
 				if want := "ok|" + c15CanonNodes(nodes); end != "eof" || res != want {
 					gkey := "grow-shifts"
-					if strings.HasPrefix(res, "nowriter") {
+					if refused := c15RefusedNames(nodes); refused != "" {
+						c15ViolateCapped(c, 3, "entry-name-refused:"+refused, "the archive writer refuses an entry whose name is a valid single path element",
+							fmt.Sprintf("tree=%s got=%s", c15DescNodes(nodes), res))
+						return
+					} else if strings.HasPrefix(res, "nowriter") {
 						gkey = "mode-disagree:" + c15Shape(nodes) // not about the growth: the receiver opened no archive writer
 					} else if end == "eof" && c15TreeKey(tmp, &seq, rootSrc, gsegs, want, c15Reused) != "roundtrip-tree" {
 						gkey = "roundtrip-tree:reused-buffer" // the reader was fine; the writer kept the caller's slice
@@ -909,6 +931,13 @@ func genArchive(c *ctx) {
 	// NAME record, sender's and receiver's next step; whole transfers in process and through
 	// the real binaries
 	c15Mode(c, tmp)
+
+	// 10. names over the whole of Unicode: the real checkFileName against valid_name on UTF-8 bytes
+	c15Case(c, "names", "all BMP code points", func() { c15NamesTie(c) })
+
+	// 11. the archive stream as a source file: the compression decision around the 128 KiB
+	// point, and whole transfers of such streams with compression auto / yes / no
+	c15Stream(c, tmp)
 }
 
 // c15Case runs one case of the generator: a real function that panics or does not return
@@ -1210,6 +1239,17 @@ func c15Mode(c *ctx, tmp string) {
 		}
 	}
 	sets = append(sets, []c15ModeSrc{{name: "many", nodes: many()}})
+	// roots and entries named by code points that look like separators / dots to anything but a test on UTF-8 bytes
+	for i := 0; i < c.pick(6, len(c15OddNames)); i++ {
+		n1 := c15OddNames[(i*5+c.rng.Intn(5))%len(c15OddNames)]
+		n2 := c15OddNames[c.rng.Intn(len(c15OddNames))]
+		n3 := c15OddNames[c.rng.Intn(len(c15OddNames))]
+		nodes := []c15Node{dir(n2), file("odd "+n3, n2, n3)}
+		if n3 != n2 {
+			nodes = append(nodes, file("", n3))
+		}
+		sets = append(sets, []c15ModeSrc{{name: n1, nodes: nodes}})
+	}
 	// several roots in one transfer: one-entry and zero-entry roots between bigger ones and plain files
 	for i := 0; i < c.pick(10, 150); i++ {
 		k := 2 + c.rng.Intn(4)
@@ -1422,4 +1462,401 @@ func c15Mode(c *ctx, tmp string) {
 				fmt.Sprintf("%s root with entries %s (protocol 4, -d, no -y) :: %s", d, c15CanonNodes(ec.nodes), strings.Join(ec.diffs, "; ")))
 		}
 	}
+}
+
+// ---------------------------------------------------------------------------------------
+// names over the whole of Unicode (Model/ArchiveNames.v)
+
+func c15NameOfCps(cps []int) string {
+	var sb strings.Builder
+	for _, cp := range cps {
+		sb.WriteString(string(rune(cp))) // surrogates and values above U+10FFFF become U+FFFD, as in the model
+	}
+	return sb.String()
+}
+
+func c15NamesTie(c *ctx) {
+	reported := 0
+	batch := func(kind string, names [][]int) {
+		args := make([]string, len(names))
+		res := make([]byte, len(names))
+		for i, cps := range names {
+			if len(cps) == 0 {
+				args[i] = "e"
+			} else {
+				ds := make([]string, len(cps))
+				for j, cp := range cps {
+					ds[j] = strconv.Itoa(cp)
+				}
+				args[i] = strings.Join(ds, ".")
+			}
+			name := c15NameOfCps(cps)
+			ok := trzsz.VerifArchiveCheckName(name)
+			res[i] = '0'
+			if ok {
+				res[i] = '1'
+			}
+			// direct oracle: a name is refused iff it is empty, ".", ".." or contains the BYTE '/'
+			want := name != "" && name != "." && name != ".." && !strings.Contains(name, "/")
+			if ok != want && reported < 4 {
+				reported++
+				var us []string
+				for _, cp := range cps {
+					us = append(us, fmt.Sprintf("U+%04X", cp))
+				}
+				c.violate("checkFileName:"+strings.Join(us, "+"), "checkFileName decides on something other than the bytes of the name's UTF-8 encoding",
+					fmt.Sprintf("name %q (code points %s, bytes %x): accepted=%v, but it %s a valid single path element", name, strings.Join(us, " "), name, ok,
+						map[bool]string{true: "is", false: "is not"}[want]))
+			}
+		}
+		c.count("names:" + kind)
+		c.emit(true, "anm_valid", string(res), strings.Join(args, ","))
+	}
+	// every BMP code point: alone, inside a name, after a dot
+	for base := 0; base < 0x10000; base += 256 {
+		var alone, inside, dotted [][]int
+		for cp := base; cp < base+256; cp++ {
+			alone = append(alone, []int{cp})
+			inside = append(inside, []int{'a', cp, 'b'})
+			dotted = append(dotted, []int{'.', cp})
+		}
+		batch("bmp-alone", alone)
+		batch("bmp-inside", inside)
+		batch("bmp-dotted", dotted)
+	}
+	// above the BMP: a regular sample, every code point whose low byte looks like '/', '\\', '.', NUL
+	// in planes 1, 2 and 16, and invalid values
+	var sup [][]int
+	for cp := 0x10000; cp <= 0x10FFFF; cp += 0x101 {
+		sup = append(sup, []int{cp})
+	}
+	for _, plane := range []int{0x10000, 0x20000, 0x100000} {
+		for hi := 0; hi < 256; hi += 17 {
+			for _, lo := range []int{0x2F, 0x5C, 0x2E, 0x00} {
+				sup = append(sup, []int{plane + hi<<8 + lo}, []int{'x', plane + hi<<8 + lo})
+			}
+		}
+	}
+	sup = append(sup, []int{0x110000}, []int{0x1FFFFF}, []int{0xD800}, []int{0xDFFF, 0x2F}, []int{}, []int{'.'}, []int{'.', '.'}, []int{'.', '.', '.'},
+		[]int{'/'}, []int{'a', '/', 'b'}, []int{'\\'}, []int{0}, []int{'a', 0, 'b'}, []int{0x2F00, 0x2F}, []int{0x42F, 0x42F})
+	for i := 0; i < len(sup); i += 256 {
+		batch("supplementary-and-corner", sup[i:min(len(sup), i+256)])
+	}
+	// random names of 1-6 code points drawn from the interesting values
+	pool := []int{'a', '.', '/', '\\', 0, 0x2F, 0x12F, 0x42F, 0x542F, 0x2F00, 0x5C00, 0x2E00, 0x15C, 0x12E, 0x100, 0x1F42F, 0x1002F, 0xD800, 0xFFFD, 0x7F, 0x80, 0x7FF, 0x800, 0xFFFF, 0x10000, 0x10FFFF}
+	for b := 0; b < c.pick(4, 60); b++ {
+		var names [][]int
+		for i := 0; i < 256; i++ {
+			n := 1 + c.rng.Intn(6)
+			cps := make([]int, n)
+			for j := range cps {
+				cps[j] = pool[c.rng.Intn(len(pool))]
+			}
+			names = append(names, cps)
+		}
+		batch("random", names)
+	}
+}
+
+// ---------------------------------------------------------------------------------------
+// the archive stream as a source file (Model/ArchiveMode.v amo_archive_compress)
+
+func c15CompRes(comp, sent bool, errText string) string {
+	b := "0"
+	if comp {
+		b = "1"
+	}
+	switch {
+	case errText != "":
+		return "err"
+	case sent:
+		return "probed:" + b
+	}
+	return "fixed:" + b
+}
+
+// c15TreeOfStream builds a tree whose archive stream has exactly total bytes (headers included)
+func c15TreeOfStream(_ *ctx, root string, total int, rng *rand.Rand) ([]c15Node, bool) {
+	nodes := []c15Node{{rel: []string{"d"}, dir: true}, {rel: []string{"d", "empty"}}, {rel: []string{"中文"}, dir: true}}
+	rest := total - 600
+	for i := 0; rest > 2000 && i < 3; i++ {
+		n := rest / (4 - i)
+		nodes = append(nodes, c15Node{rel: []string{"d", fmt.Sprintf("f%d.bin", i)}, data: fillBytes(rng, n, i)})
+		rest -= n
+	}
+	last := len(nodes)
+	nodes = append(nodes, c15Node{rel: []string{"last.dat"}, data: fillBytes(rng, max(rest, 0), 2)})
+	for try := 0; try < 8; try++ {
+		os.RemoveAll(root)
+		c15Materialise(root, nodes)
+		a, err := trzsz.VerifArchiveScan(root)
+		if err != nil {
+			return nil, false
+		}
+		rd, err := a.NewReader()
+		if err != nil {
+			return nil, false
+		}
+		got := int(rd.VerifSize())
+		rd.Close()
+		if got == total {
+			return nodes, true
+		}
+		n := len(nodes[last].data) + total - got
+		if n < 0 {
+			return nil, false
+		}
+		nodes[last].data = fillBytes(rng, n, 2)
+	}
+	return nil, false
+}
+
+func c15Stream(c *ctx, tmp string) {
+	const kib = 1024
+	ctNames := []string{"auto", "yes", "no"}
+	// (a) the decision itself on explicit entries: the announced size is all it may depend on
+	small := filepath.Join(tmp, "stream-small")
+	os.WriteFile(small, []byte("x"), 0644)
+	c15Case(c, "stream-compress", "explicit entries", func() {
+		targets := []int64{0, 100, 511, 512, 513, 4096, 128*kib - 1, 128 * kib, 128*kib + 1, 200 * kib, 256 * kib, 384 * kib, 600 * kib, 3 << 20}
+		for _, target := range targets {
+			// one file entry whose announced size makes the whole stream `target` bytes long (as near as the header allows)
+			x := target - 200
+			if x < 0 {
+				x = 0
+			}
+			var a *trzsz.VerifArchive
+			for try := 0; try < 6; try++ {
+				a = trzsz.VerifArchiveFromEntries("r", 0, []trzsz.VerifArchiveEntry{{RelPath: []string{"r", "f"}, AbsPath: small, Size: x}})
+				rd, err := a.NewReader()
+				if err != nil {
+					panic(err)
+				}
+				got := rd.VerifSize()
+				rd.Close()
+				if got == target || x+target-got < 0 {
+					break
+				}
+				x += target - got
+			}
+			for _, proto := range []int{2, 3, 4} {
+				for ct := 0; ct < 3; ct++ {
+					for _, binary := range []bool{false, true} {
+						comp, sent, errText, size, rd := a.VerifArchiveCompress(proto, ct, binary)
+						if rd != nil {
+							rd.Close()
+						}
+						b := "0"
+						if binary {
+							b = "1"
+						}
+						c.count("stream:decision:" + strings.SplitN(c15CompRes(comp, sent, errText), ":", 2)[0])
+						c.emit(true, "amo_compress", c15CompRes(comp, sent, errText), fmt.Sprint(proto), fmt.Sprint(ct), b, fmt.Sprint(size))
+						if errText != "" {
+							c.violate(fmt.Sprintf("stream-compress-failed:compress-%s", ctNames[ct]), "sendCompressFlag fails on an archive stream",
+								fmt.Sprintf("archive reader of announced size %d, protocol %d, compress %s, binary %v: %s", size, proto, ctNames[ct], binary, errText))
+						}
+					}
+				}
+			}
+		}
+	})
+
+	// (b) real trees whose stream is 127 / 128 / 129 / 200 / 600 KiB long: the decision leaves the stream
+	// untouched; whole transfers (real sendFiles vs real recvFiles) with compress auto / yes / no
+	type sc struct {
+		kibs     int
+		ct       int
+		binary   bool
+		seed     int64
+		nodes    []c15Node
+		built    bool
+		dec      string
+		touched  string
+		pair     trzsz.VerifPairResult
+		diffs    []string
+		panicked string
+	}
+	var cases []*sc
+	for _, k := range []int{127, 128, 129, 200, 600} {
+		for ct := 0; ct < 3; ct++ {
+			if k == 600 && ct != 0 && !c.thorough() {
+				continue
+			}
+			cases = append(cases, &sc{kibs: k, ct: ct, binary: c.rng.Intn(2) == 0, seed: c.rng.Int63()})
+		}
+	}
+	parallelDo(len(cases), 8, func(i int) {
+		x := cases[i]
+		defer func() {
+			if r := recover(); r != nil {
+				x.panicked = fmt.Sprint(r)
+			}
+		}()
+		rng := rand.New(rand.NewSource(x.seed))
+		dir := filepath.Join(tmp, fmt.Sprintf("stream%d", i))
+		root := filepath.Join(dir, "src", fmt.Sprintf("stream-%dKiB", x.kibs))
+		x.nodes, x.built = c15TreeOfStream(nil, root, x.kibs*kib, rng)
+		if !x.built {
+			return
+		}
+		a, err := trzsz.VerifArchiveScan(root)
+		if err != nil {
+			panic(err)
+		}
+		ref, err := a.NewReader()
+		if err != nil {
+			panic(err)
+		}
+		refOuts, refEnd := c15Read(ref, nil, 32768, nil)
+		ref.Close()
+		comp, sent, errText, size, rd := a.VerifArchiveCompress(4, x.ct, x.binary)
+		x.dec = fmt.Sprintf("%s size=%d", c15CompRes(comp, sent, errText), size)
+		if rd != nil {
+			outs, end := c15Read(rd, nil, 32768, nil)
+			rd.Close()
+			if end != refEnd || !bytes.Equal(c15Concat(outs), c15Concat(refOuts)) || int64(len(c15Concat(outs))) != size {
+				x.touched = fmt.Sprintf("after the decision the reader delivers %d bytes (%s), a fresh one %d (%s), announced %d", len(c15Concat(outs)), end, len(c15Concat(refOuts)), refEnd, size)
+			}
+		}
+		dest := filepath.Join(dir, "dest")
+		os.MkdirAll(dest, 0755)
+		x.pair = trzsz.VerifModePairCfg([]string{root}, dest, trzsz.VerifPairCfg{Protocol: 4, Compress: x.ct, Binary: x.binary, TimeoutSec: 3}, 40*time.Second)
+		r := x.pair
+		if r.Hung || r.SendErr != "" || r.RecvErr != "" {
+			x.diffs = append(x.diffs, fmt.Sprintf("no-success: hung=%v sender=%q receiver=%q", r.Hung, r.SendErr, r.RecvErr))
+		}
+		x.diffs = append(x.diffs, sameTree(root, filepath.Join(dest, filepath.Base(root)))...)
+		os.RemoveAll(dir)
+	})
+	for _, x := range cases {
+		desc := fmt.Sprintf("archive stream of %d KiB (protocol 4, compress %s, binary %v) decision=%s tree=%s", x.kibs, ctNames[x.ct], x.binary, x.dec, c15DescNodes(x.nodes))
+		c.count(fmt.Sprintf("stream:pair:%dKiB", x.kibs))
+		c.note(true, "stream-pair "+desc)
+		switch {
+		case x.panicked != "":
+			c.violate(fmt.Sprintf("stream-panic:%dKiB:compress-%s", x.kibs, ctNames[x.ct]), "a real function panicked", desc+" :: "+x.panicked)
+			continue
+		case !x.built:
+			c.violate(fmt.Sprintf("stream-tree-not-built:%dKiB", x.kibs), "scan / reader failed on a generated tree", desc)
+			continue
+		}
+		if strings.HasPrefix(x.dec, "err") {
+			c.violate(fmt.Sprintf("stream-compress-failed:compress-%s", ctNames[x.ct]), "sendCompressFlag fails on an archive stream", desc)
+		}
+		if x.touched != "" {
+			c.violate(fmt.Sprintf("stream-touched:%dKiB", x.kibs), "the compression decision moved or consumed the archive stream", desc+" :: "+x.touched)
+		}
+		if len(x.diffs) > 0 {
+			c.violate(fmt.Sprintf("pair-tree:stream-%dKiB:compress-%s", x.kibs, ctNames[x.ct]),
+				"a whole in-process transfer (real sendFiles against real recvFiles) of a long archive stream did not reproduce the source tree", desc+" :: "+strings.Join(x.diffs, "; "))
+		}
+	}
+
+	// (c) through the real binaries
+	type ec struct {
+		kibs   int
+		ct     string
+		upload bool
+		diffs  []string
+		desc   string
+	}
+	var ecs []*ec
+	for _, k := range []int{129, 200} {
+		ecs = append(ecs, &ec{kibs: k, ct: "auto", upload: true}, &ec{kibs: k, ct: "auto", upload: false})
+	}
+	ecs = append(ecs, &ec{kibs: 127, ct: "auto", upload: c.rng.Intn(2) == 0}, &ec{kibs: 200, ct: []string{"yes", "no"}[c.rng.Intn(2)], upload: c.rng.Intn(2) == 0})
+	if c.thorough() {
+		ecs = append(ecs, &ec{kibs: 600, ct: "auto", upload: true}, &ec{kibs: 600, ct: "auto", upload: false})
+	}
+	seeds := make([]int64, len(ecs))
+	for i := range seeds {
+		seeds[i] = c.rng.Int63()
+	}
+	parallelDo(len(ecs), 8, func(i int) {
+		e := ecs[i]
+		defer func() {
+			if r := recover(); r != nil {
+				e.diffs = append(e.diffs, fmt.Sprintf("panic: %v", r))
+			}
+		}()
+		dir := filepath.Join(tmp, fmt.Sprintf("stream-e2e%d", i))
+		top := filepath.Join(dir, "s", fmt.Sprintf("stream-%dKiB", e.kibs))
+		nodes, ok := c15TreeOfStream(nil, top, e.kibs*kib, rand.New(rand.NewSource(seeds[i])))
+		e.desc = c15DescNodes(nodes)
+		if !ok {
+			e.diffs = append(e.diffs, "tree-not-built")
+			return
+		}
+		dest := filepath.Join(dir, "dest")
+		os.MkdirAll(dest, 0755)
+		r := runTransfer(e2eCfg{upload: e.upload, directory: true, proto: 4, compress: e.ct, timeout: 5, deadline: 60 * time.Second}, []string{top}, dest)
+		shown := r.serverOut
+		if !e.upload {
+			shown = r.termOut + r.serverOut
+		}
+		names, saved := parseSaved(shown)
+		if !(saved && !r.hung && r.clientDone && r.serverExited && (!e.upload || r.uploadErr == nil)) {
+			e.diffs = append(e.diffs, fmt.Sprintf("no-success: hung=%v clientDone=%v serverExited=%v uploadErr=%.200v saved=%v tail=%q",
+				r.hung, r.clientDone, r.serverExited, r.uploadErr, saved, tailStr(r.termOut+"|"+r.serverOut, 200)))
+		} else if len(names) != 1 {
+			e.diffs = append(e.diffs, fmt.Sprintf("names-count: %v", names))
+		} else {
+			e.diffs = append(e.diffs, sameTree(top, filepath.Join(dest, names[0]))...)
+		}
+		os.RemoveAll(dir)
+	})
+	for _, e := range ecs {
+		d := "download"
+		if e.upload {
+			d = "upload"
+		}
+		c.count(fmt.Sprintf("stream:e2e:%dKiB", e.kibs))
+		c.note(true, fmt.Sprintf("stream-e2e %s %d KiB compress %s", d, e.kibs, e.ct))
+		if len(e.diffs) > 0 {
+			c.violate(fmt.Sprintf("e2e-tree:stream-%dKiB:compress-%s:%s", e.kibs, e.ct, d), "a directory transfer in archive mode through the real binaries did not reproduce the source tree",
+				fmt.Sprintf("%s of a tree whose archive stream is %d KiB (protocol 4, -d, -c %s, no -y), entries %s :: %s", d, e.kibs, e.ct, e.desc, strings.Join(e.diffs, "; ")))
+		}
+	}
+}
+
+// c15DescNodes: a short description of a tree (paths, kinds, lengths)
+func c15DescNodes(nodes []c15Node) string {
+	var parts []string
+	for _, n := range nodes {
+		if n.dir {
+			parts = append(parts, strings.Join(n.rel, "/")+"/")
+		} else {
+			parts = append(parts, fmt.Sprintf("%s(%d bytes)", strings.Join(n.rel, "/"), len(n.data)))
+		}
+	}
+	return "[" + strings.Join(parts, " ") + "]"
+}
+
+// c15RefusedNames: the code points of the first path element of the tree that the real checkFileName refuses ("" = none)
+func c15RefusedNames(nodes []c15Node) string {
+	for _, n := range nodes {
+		for _, el := range n.rel {
+			if !trzsz.VerifArchiveCheckName(el) {
+				var us []string
+				for _, r := range el {
+					us = append(us, fmt.Sprintf("U+%04X", r))
+				}
+				return strings.Join(us, "+")
+			}
+		}
+	}
+	return ""
+}
+
+var c15FamilyCount = map[string]int{}
+
+// c15ViolateCapped reports at most n violations per key family (the part of the key before the first ':')
+func c15ViolateCapped(c *ctx, n int, key, what, detail string) {
+	fam := strings.SplitN(key, ":", 2)[0]
+	if c15FamilyCount[fam] >= n {
+		return
+	}
+	c15FamilyCount[fam]++
+	c.violate(key, what, detail)
 }
